@@ -34,6 +34,7 @@ class Validation:
         self.flat_certified = None
         self.uniform_certified = None
         self.ibu = None
+        self.bound = None
 
     def kinds(self):
         return {d['kind'] for d in self.disc}
@@ -224,6 +225,7 @@ def validate(run, case, model, lazy=True, cache=True, tables_from='model') -> Va
         v.flat_certified = ' flat' in r
         v.uniform_certified = ' uniform' in r
         v.ibu = ' ibu' in r
+        v.bound = ' bound' in r
         if r.startswith('ok'):
             if v.convex and not v.certified:
                 v.disc.append(dict(kind='uncertified', at=-1, detail='the static tables of this convex scenario do not pass check_static: the premise static_ok of the scheduler theorems is not established'))
@@ -242,6 +244,8 @@ def validate(run, case, model, lazy=True, cache=True, tables_from='model') -> Va
         if case['until'] > 0 and all(t < case['until'] for _, t in case.get('init', [])) and not v.ibu:
             v.disc.append(dict(kind='uncertified', at=-1, detail='every initial step lies before until, but init_before_untilb rejects the model-built tables: '
                                'the premise of C02_queued_steps_are_executed is not established'))
+        if v.certified and v.convex and not v.bound:
+            v.disc.append(dict(kind='uncertified', at=-1, detail='check_bound rejects the model-built trigger delays (a negative tier): the premise of C05_finitely_many_steps is not established'))
         one_group = len({tuple(g) for g in case['grp']}) == 1
         if (one_group and case['until'] > 0 and all(t < case['until'] for _, t in case.get('init', []))
                 and v.certified and not (v.uniform_certified and (v.flat_certified or any(case['grp'])))):
